@@ -258,6 +258,13 @@ class BV:
 
 
 class BitEval:
+    LOSSY = []   # notes about float-lossy constructs met since the last pop_lossy()
+
+    @staticmethod
+    def pop_lossy():
+        out, BitEval.LOSSY[:] = list(BitEval.LOSSY), []
+        return out
+
     """Evaluates a Sym to a BV.  `leaf(sym)` binds inputs (returns BV or None);
     unknown constructs give top, never a wrong fact."""
 
@@ -288,6 +295,19 @@ class BitEval:
             f = s[1]
             # int(x) of an exact integer expression
             if f == ("glob", "int") and len(s[2]) == 1:
+                x = s[2][0]
+                if x[0] == "bin" and x[1] == "/":
+                    # int(a / 2**k): true division goes through a float.  Exact (= a >> k) only while a fits the 53-bit mantissa.
+                    a, b = self.ev(x[2]), self.ev(x[3])
+                    if b.is_const():
+                        v = b.value()
+                        if v > 0 and v & (v - 1) == 0:
+                            w = a.width()
+                            if w is not None and w <= 53:
+                                return a.shr(v.bit_length() - 1)
+                            BitEval.LOSSY.append("int(x / %d) with x up to %s bits wide: the quotient is a float with a 53-bit mantissa, so it is "
+                                                 "rounded (not truncated) for x >= 2**53" % (v, w if w is not None else "unbounded"))
+                    return BV.top()
                 return self.ev(s[2][0])
             if f == ("attr", ("glob", "int"), "from_bytes"):
                 return self.from_bytes(s)
